@@ -551,3 +551,51 @@ def subst_chain_aliases(fn: ast.AST, text: str) -> str:
             return node
 
     return ast.unparse(T().visit(e))
+
+
+def inline_chain_aliases(fn: ast.AST) -> ast.AST:
+    """A copy of `fn` in which every local stored exactly once by `x = <attribute chain>` is replaced, where it is read,
+    by that chain (`lhs = self.data` ... `lhs == rhs`  ->  `self.data == other.data`)."""
+    import copy
+
+    stores: dict[str, int] = {}
+    for n in walk_local(fn):
+        if isinstance(n, ast.Name) and isinstance(n.ctx, (ast.Store, ast.Del)):
+            stores[n.id] = stores.get(n.id, 0) + 1
+    alias: dict[str, ast.expr] = {}
+    for st in walk_local(fn):
+        if isinstance(st, ast.Assign) and len(st.targets) == 1:
+            tg, v = st.targets[0], st.value
+            pairs = [(tg, v)] if isinstance(tg, ast.Name) else list(zip(tg.elts, v.elts)) if isinstance(tg, ast.Tuple) and isinstance(v, ast.Tuple) and len(tg.elts) == len(v.elts) else []
+            for t_, v_ in pairs:
+                root = v_
+                while isinstance(root, ast.Attribute):
+                    root = root.value
+                if isinstance(t_, ast.Name) and stores.get(t_.id) == 1 and isinstance(v_, ast.Attribute) and isinstance(root, ast.Name):
+                    alias[t_.id] = v_
+    if not alias:
+        return fn
+
+    class T(ast.NodeTransformer):
+        def visit_Name(self, node: ast.Name):
+            if isinstance(node.ctx, ast.Load) and node.id in alias:
+                return copy.deepcopy(alias[node.id])
+            return node
+
+    return ast.fix_missing_locations(T().visit(copy.deepcopy(fn)))
+
+
+def dewalrus(text: str) -> str:
+    """`(x := E) is None`  ->  `x is None`: the fact is about the bound name"""
+    if ":=" not in text:
+        return text
+    try:
+        e = ast.parse(text, mode="eval")
+    except SyntaxError:
+        return text
+
+    class T(ast.NodeTransformer):
+        def visit_NamedExpr(self, node: ast.NamedExpr):
+            return ast.Name(id=node.target.id, ctx=ast.Load())
+
+    return ast.unparse(ast.fix_missing_locations(T().visit(e)))
